@@ -9,7 +9,7 @@ from xml.etree import ElementTree as ET
 from . import env
 
 KNOWN_PATH = os.path.join(env.VERIF_DIR, 'known_findings.json')
-REPLAY_DIR = os.path.join(env.VERIF_DIR, 'replays')
+REPLAY_DIR = os.environ.get('VERIF_REPLAY_DIR') or os.path.join(env.VERIF_DIR, 'replays')
 
 
 def h64(*parts):
@@ -111,7 +111,7 @@ def write_replay(prop, sig, rec, seed, shrunk):
                    'detail': rec['detail'], 'expected': rec['expected'],
                    'observed': rec['observed'], 'seed': seed, 'shrunk': shrunk,
                    'times_seen': rec['count']}, f, indent=1, default=str)
-    return os.path.relpath(path, env.VERIF_DIR)
+    return os.path.relpath(path, env.VERIF_DIR) if path.startswith(env.VERIF_DIR + os.sep) else path
 
 
 # ---------------------------------------------------------------- shrinking
